@@ -382,8 +382,49 @@ class _ImportRewriter(ast.NodeTransformer):
         return node
 
 
+class _PoolRewriter(ast.NodeTransformer):
+    """concurrent.futures / threading / multiprocessing.pool.ThreadPool -> instr.simpool (seeded task order)."""
+
+    def visit_ImportFrom(self, node):
+        if node.level == 0 and node.module in ('concurrent.futures', 'concurrent.futures.thread'):
+            keep, sim = [], []
+            for a in node.names:
+                (sim if a.name in ('ThreadPoolExecutor', 'as_completed', 'wait') else keep).append(a)
+            out = []
+            if keep:
+                out.append(ast.ImportFrom(module=node.module, names=keep, level=0))
+            if sim:
+                out.append(ast.ImportFrom(module='instr.simpool', names=sim, level=0))
+            return [ast.copy_location(n, node) for n in out]
+        if node.level == 0 and node.module == 'threading':
+            keep, sim = [], []
+            for a in node.names:
+                (sim if a.name == 'Thread' else keep).append(a)
+            out = []
+            if keep:
+                out.append(ast.ImportFrom(module='threading', names=keep, level=0))
+            if sim:
+                out.append(ast.ImportFrom(module='instr.simpool', names=sim, level=0))
+            return [ast.copy_location(n, node) for n in out]
+        return node
+
+    def visit_Attribute(self, node):
+        self.generic_visit(node)
+        # concurrent.futures.ThreadPoolExecutor / futures.ThreadPoolExecutor / threading.Thread
+        if node.attr in ('ThreadPoolExecutor', 'as_completed', 'wait') and isinstance(node.value, (ast.Attribute, ast.Name)):
+            base = node.value
+            name = base.attr if isinstance(base, ast.Attribute) else base.id
+            if name in ('futures',):
+                return ast.copy_location(ast.Attribute(value=_rt('simpool'), attr=node.attr, ctx=node.ctx), node)
+        if node.attr == 'Thread' and isinstance(node.value, ast.Name) and node.value.id == 'threading':
+            return ast.copy_location(ast.Attribute(value=_rt('simpool'), attr='Thread', ctx=node.ctx), node)
+        return node
+
+
 def transform(source, filename, modname, variant):
     tree = ast.parse(source, filename)
+    tree = _PoolRewriter().visit(tree)
+    ast.fix_missing_locations(tree)
     info = {'pranges': 0, 'gfuncs': [], 'variant': variant}
     if variant == 'real':
         tree = _ClockAndAlloc(do_alloc=True).visit(tree)
@@ -507,6 +548,7 @@ class _Finder(importlib.abc.MetaPathFinder, importlib.abc.Loader):
 class _Runtime:
     """Facade bound to the name ``__sim_rt__`` in instrumented modules."""
     UNDEF = float('nan')
+    from . import simpool as simpool
     alloc_empty = staticmethod(rt.alloc_empty)
     alloc_empty_like = staticmethod(rt.alloc_empty_like)
     clock = staticmethod(rt.clock)
